@@ -24,7 +24,7 @@ def run(tier: str, seed: int, replay=None) -> int:
             "scope of the property: negation-normal conditions over comparisons with and_, and or_ only between conditions over the same "
             "variables; domains list no element twice; selected expressions have distinct root variables that occur in the condition",
             "first evaluation of a fresh query (re-evaluation is C03)",
-            "CPython generator protocol and itertools.product",
+            "CPython generator protocol",
         ],
         rule=("seeded random queries (harness/eqlgen.py, profile c02, biased to the fragment); rows compared as MULTISETS with the "
               "Spec's enumeration of satisfying assignments; cases outside the fragment only observe the model/implementation tie. "
